@@ -615,6 +615,19 @@ def run(chk):
             first(k_live[4], "trainfrags"), MAX_COUNT + 1, first(k_live[4], "virtualms")))
 
     # (2) generated honest histories
+    # leg retx is only meaningful if its last transmission really delivers every byte of every message: a
+    # history that does not is a defect of the generator, never of the library
+    for c in by_leg.get("retx", []):
+        wire = {}
+        for o in c["ops"]:
+            for f in o["rec"].get("frags", []):
+                wire.setdefault(f["seq"], set()).add((f["off"], f["flen"]))
+        short = [m["seq"] for m in c["msgs"] if not covered(wire.get(m["seq"], set()), m["len"])
+                 or len(wire.get(m["seq"], set())) != c["retx"]["frags"][m["seq"]]]
+        if short:
+            chk.broken("C12 leg retx: generated history %d never sends every fragment of message(s) %s" % (c["id"], short),
+                       json.dumps(c.get("retx"))[:2000])
+            break
     for leg in ("retx", "many", "multi", "exh", "small", "big"):
         for c in by_leg.get(leg, []):
             m = monitor_bounds(c) or monitor_honest(c, completeness=c["onepar"])
